@@ -1,5 +1,19 @@
+import BlockCiphers.Gen.Decls
 /-
-C12 — theorem file (property theorems only).  Filled in as the models it needs are merged; see DESIGN §7 C12.
+C12 — encrypt-only, decrypt-only, converted and cloned instances agree.
 -/
 namespace BC.Thm.C12
+open BC.Gen
+
+/-- union-arm discipline of the AES autodetect wrappers (re-extracted from /repo on every run): in every
+`if token.get() { A } else { B }` (construction, `Clone`, `From<&Enc>`, enc/dec dispatch, `Drop`) branch `A` touches
+only the `intrinsics` arm and branch `B` only the `soft` arm — the arm that was written at construction under the
+same token.  (A wrong arm is undefined behaviour whose effect depends on the optimiser: it is invisible in the
+`opt-level = 2` builds of this host and visible at `opt-level = 0`, which is why the check also runs an O0 build.) -/
+theorem arm_discipline : ∀ b ∈ tokenBranches, b.2.2.1 = ["intrinsics"] ∧ b.2.2.2 = ["soft"] := by decide +kernel
+
+/-- the dispatch sites are seen (construction ×3, Clone ×3, From<&Enc> ×2, enc ×2, dec ×2, Drop ×3):
+the inventory is not empty -/
+theorem arm_sites_present : 15 ≤ tokenBranches.length := by decide +kernel
+
 end BC.Thm.C12
